@@ -218,8 +218,13 @@ func runC12(x *Ctx) {
 	}
 	x.C.Obl("C12.R3", "optional-discipline:resolve", x.pos(res),
 		fmt.Sprintf("each of the %d failure exits of the field and index cases returns (nil, nil) when the segment is optional", n), bad == "" && kindsFail["field"] > 0 && kindsFail["index"] > 0, bad)
-	if g := x.fn("C12.R3", selPkg+"resolve$1"); g != nil {
+	// the local helper that filters an error by the segment's optionality (a closure of resolve today). Its
+	// body is spliced into resolve's paths, so the rule above already sees its Optional() test; when it exists
+	// as a function of its own it must be the idiom. Written as a method or top-level helper it is spliced too.
+	if g := x.P.Func(selPkg + "resolve$1"); g != nil && len(g.Blocks) > 0 && len(g.Params) == 2 {
 		x.C.Obl("C12.R3", "idiom:errIfNotOptional", x.pos(g), "the helper returns nil for an optional segment and the given error otherwise", isOptionalIdiom(x, g), "")
+	} else {
+		x.C.Obl("C12.R3", "idiom:errIfNotOptional", x.pos(res), "no separate optionality helper: every failure exit tests Optional() on resolve's own paths (rule optional-discipline)", true, "")
 	}
 
 	lookupResults(x, res, loop, elem, curCell)
